@@ -7,6 +7,9 @@ import warnings
 warnings.filterwarnings("ignore", category=SyntaxWarning)
 
 from .astutil import FUNC_TYPES, dotted, norm
+from .canon import canonicalize
+
+CANONICAL = os.environ.get("MXSA_RAW") != "1"
 
 
 class AnalysisError(Exception):
@@ -14,7 +17,7 @@ class AnalysisError(Exception):
 
 
 class FuncInfo:
-    __slots__ = ("name", "key", "qual", "node", "cls", "module", "kind", "outer",
+    __slots__ = ("aliases", "name", "key", "qual", "node", "cls", "module", "kind", "outer",
                  "_pm", "_cfg")
 
     def __init__(self, name, key, node, cls, module, kind, outer=None):
@@ -225,7 +228,9 @@ class Repo:
                 kind = "nested"
             else:
                 kind = "func"
+            aliases = canonicalize(fn) if CANONICAL else {}
             fi = FuncInfo(fn.name, key, fn, cls, mi, kind, outer)
+            fi.aliases = aliases
             mi.all_funcs.append(fi)
             self.funcs[fi.qual] = fi
             if container is not None:
